@@ -10,6 +10,7 @@ import (
 	"reflect"
 	"strconv"
 	"time"
+	"unsafe"
 
 	"github.com/open2b/scriggo/native"
 	"pgregory.net/rapid"
@@ -179,7 +180,7 @@ var (
 
 var basic = map[string]reflect.Type{
 	"bool": reflect.TypeFor[bool](), "int": reflect.TypeFor[int](), "int8": reflect.TypeFor[int8](), "int16": reflect.TypeFor[int16](), "int32": reflect.TypeFor[int32](), "int64": reflect.TypeFor[int64](),
-	"uint": reflect.TypeFor[uint](), "uint8": reflect.TypeFor[uint8](), "uint16": reflect.TypeFor[uint16](), "uint32": reflect.TypeFor[uint32](), "uint64": reflect.TypeFor[uint64](), "uintptr": reflect.TypeFor[uintptr](),
+	"uint": reflect.TypeFor[uint](), "uint8": reflect.TypeFor[uint8](), "uint16": reflect.TypeFor[uint16](), "uint32": reflect.TypeFor[uint32](), "uint64": reflect.TypeFor[uint64](), "uintptr": reflect.TypeFor[uintptr](), "unsafeptr": reflect.TypeFor[unsafe.Pointer](),
 	"float32": reflect.TypeFor[float32](), "float64": reflect.TypeFor[float64](), "complex64": reflect.TypeFor[complex64](), "complex128": reflect.TypeFor[complex128](),
 	"string": reflect.TypeFor[string](), "bytes": reflect.TypeFor[[]byte](), "iface": reflect.TypeFor[any](), "time": reflect.TypeFor[time.Time](),
 }
@@ -335,6 +336,8 @@ func (tv TV) Value() reflect.Value {
 			}
 			out.Set(reflect.ValueOf(tg))
 		}
+	case "unsafeptr":
+		// the zero value (nil)
 	default:
 		panic("vals: value of unknown kind " + t.K)
 	}
@@ -497,6 +500,9 @@ func genFloat(t *rapid.T, k string, o Options) float64 {
 // GenV draws a value of type ty.
 func GenV(t *rapid.T, ty T, depth int, o Options) V {
 	switch ty.K {
+	case "unsafeptr":
+		_ = rapid.Bool().Draw(t, "unsafeptr") // rapid requires a draw
+		return V{Nil: true}                   // only the nil unsafe.Pointer is generated
 	case "bool":
 		return V{B: rapid.Bool().Draw(t, "b")}
 	case "int", "int8", "int16", "int32", "int64":
@@ -517,7 +523,7 @@ func GenV(t *rapid.T, ty T, depth int, o Options) V {
 	case "time":
 		return V{Sec: rapid.SampledFrom([]int64{0, 1, -1, 1616840474, 253402300799, -62135596800, 951782399, 4102444800, -2208988800}).Draw(t, "sec"),
 			Nsec: rapid.SampledFrom([]int64{0, 0, 1, 999999999, 500000000, 123456789, 1000000}).Draw(t, "nsec"),
-			Zone: rapid.SampledFrom([]int{0, 0, 3600, -18000, 19800, 45 * 60, -(9*3600 + 30*60), 14 * 3600}).Draw(t, "zone")}
+			Zone: rapid.SampledFrom([]int{0, 0, 3600, -18000, 19800, 45 * 60, -(9*3600 + 30*60), 14 * 3600, -30 * 60, -45 * 60, -60}).Draw(t, "zone")}
 	case "iface":
 		if depth <= 0 || rapid.IntRange(0, 4).Draw(t, "niliface") == 0 {
 			return V{Nil: true}
